@@ -470,11 +470,18 @@ impl Engine {
             (Some(e), g) if e == g => {}
             (None, Oc::Ok) => {
                 self.viol("C02", &format!("{}|walk={}|reports-success-for-a-mapping-of-a-size-that-does-not-exist", op, sit), &hist, Some(ai), &format!("slot holds a page table, call returned Ok"));
+                if tree.leaves != before.leaves || tree.tables != before.tables || !tree.malformed.is_empty() {
+                    self.viol("C01", &format!("{}|walk={}|call-that-must-fail-returned-Ok-and-changed-the-mappings", op, sit), &hist, Some(ai), &diff_desc(tree, &st.r1));
+                }
                 ok = false;
             }
             (None, _) => {}
             (Some(e), g) => {
                 self.viol("C02", &format!("{}|walk={}|expected={:?}|got={:?}", op, sit, e, g), &hist, Some(ai), "");
+                if *g == Oc::Ok && (tree.leaves != before.leaves || tree.tables != before.tables || !tree.malformed.is_empty()) {
+                    // a call that had to fail reported success and changed what addresses translate to
+                    self.viol("C01", &format!("{}|walk={}|call-that-must-fail-returned-Ok-and-changed-the-mappings", op, sit), &hist, Some(ai), &diff_desc(tree, &st.r1));
+                }
                 ok = false;
             }
         }
@@ -483,6 +490,9 @@ impl Engine {
         }
         // ---- C09: allocation requests
         let is_map = matches!(act, Act::Map { .. } | Act::Ident { .. });
+        if is_map {
+            self.reps.get_mut("C09").unwrap().bucket(&format!("map: {} frame(s) requested, schedule {}, outcome {:?}", out.requests, sched, out.oc));
+        }
         if out.requests != if is_map { exp_req } else { 0 } {
             self.viol("C09", &format!("{}|walk={}|sched={}|allocation-requests={}|expected={}", op, sit, sched, out.requests, if is_map { exp_req } else { 0 }), &hist, Some(ai), "");
             ok = false;
@@ -538,6 +548,7 @@ impl Engine {
                         self.viol("C11", &format!("{}|no-flush-all-token", op), &hist, Some(ai), "");
                         ok = false;
                     }
+                    self.reps.get_mut("C11").unwrap().bucket("set_flags_pN_entry Ok: MapperFlushAll token");
                 }
                 _ => {
                     if out.flush_page != Some(va) {
@@ -545,6 +556,7 @@ impl Engine {
                         ok = false;
                     }
                     self.reps.get_mut("C11").unwrap().ev(true);
+                    self.reps.get_mut("C11").unwrap().bucket(&format!("{} Ok: token page == argument page", op.split('<').next().unwrap()));
                 }
             }
         }
@@ -794,6 +806,20 @@ impl Engine {
             viols.push(("C09", format!("translate*|{}-of-{}", if x.write { "write" } else { "read" }, what), format!("host {:#x} phys {:#x} frame {}", x.addr, x.phys, x.frame)));
         }
         let n = probes.len() as u64;
+        {
+            let mut cnt = [0u64; 4];
+            for &a in &probes {
+                match st.r1.translate(a) {
+                    Some((_, sz, _, _)) => cnt[sz as usize] += 1,
+                    None => cnt[3] += 1,
+                }
+            }
+            let r = self.reps.get_mut("C01").unwrap();
+            r.bucket_n("probe translated through a 4KiB mapping", cnt[0]);
+            r.bucket_n("probe translated through a 2MiB mapping", cnt[1]);
+            r.bucket_n("probe translated through a 1GiB mapping", cnt[2]);
+            r.bucket_n("probe not mapped", cnt[3]);
+        }
         self.reps.get_mut("C01").unwrap().evals += n;
         self.reps.get_mut("C01").unwrap().nontrivial += st.r1.leaves.len().min(1) as u64 * n;
         let hist = st.hist.clone();
@@ -853,6 +879,13 @@ impl Engine {
                         self.reps.get_mut(p).unwrap().caps.push(msg.clone());
                     }
                     break;
+                }
+            }
+            if let Some(ns) = next.last() {
+                let h: Vec<String> = ns.hist.iter().map(|&i| format!("{:?}", self.acts[i as usize].0)).collect();
+                let smp = format!("mapper {} {} # depth {}: {}", self.cfg.to_arg(), ns.hist.iter().map(|i| i.to_string()).collect::<Vec<_>>().join(","), depth + 1, h.join(" ; "));
+                for p in PROPS {
+                    self.reps.get_mut(p).unwrap().samples.push(smp.clone());
                 }
             }
             for p in PROPS {
@@ -957,9 +990,7 @@ pub fn run(a: &Args) {
     let max_states: u64 = a.extra.get(2).map(|x| x.parse().unwrap()).unwrap_or(3_000_000);
     let mut e = Engine::new(cfg);
     e.search(&bounds, a, max_states);
-    for (_, r) in e.reps.iter_mut() {
-        r.sample(format!("mapper {} 0,1  (Map page 0 default; Unmap page 0)", e.cfg.to_arg()));
-    }
+
     for r in e.reps.values() {
         r.emit();
     }
